@@ -18,6 +18,7 @@ import (
 
 func runC16(r *Run) {
 	c16BlankTwinsInLiterals(r)
+	c16NotThroughParens(r)
 	r.Rule = "random expression trees (depth <= 4, every operator, quantifiers with all four binding forms, bexpr and JSON-Pointer selectors with awkward parts) rendered with per-node layout and style choices (blank runs of space/tab/CR/LF, redundant parentheses, double-quoted \\xHH / Go-escaped / backtick / bare literals, dotted / bracketed selector parts, in vs contains spellings); predicate on the implementation: grammar.Parse of the text returns exactly the tree; literal fidelity: for every string s of the pool and of a random stream and every style that can express it, `X == <literal>` is true of X = s and `X != <literal>` false; every rendering is also parsed by the model; distinct = (tree shape, layout hash)"
 	n := 4000
 	if r.Tier == "thorough" {
@@ -909,6 +910,7 @@ func runC13(r *Run) {
 	c13RepeatStability(r, n/2)
 	c13PanickingHooksAndCrowds(r)
 	c13ExpressionText(r)
+	c13LongAliasPaths(r)
 	c13TiedKeyOrders(r)
 	c13JSONNumbers(r)
 	c13BadPatternsTwice(r)
@@ -1099,7 +1101,9 @@ func runC12(r *Run) {
 		arrA := [3]S1{lst[0], lst[1], lst[2]}
 		arrB := [2]S1{lst[2], lst[0]}
 		arrC := [2]int{1, 2}
-		inputs := []interface{}{lst, mp, arrA, arrB, arrC, []interface{}{lst[0], 1, nil}}
+		// a map in which one entry cannot be evaluated and others are accepted: what Execute returns does not depend on which it meets first
+		mixed := map[string]interface{}{"a": lst[0], "b": 5, "c": lst[2], "d": lst[1], "e": S1{A: 1, B: "aaa", L: []string{"a"}}, "f": lst[0]}
+		inputs := []interface{}{lst, mp, arrA, arrB, arrC, []interface{}{lst[0], 1, nil}, mixed}
 		wantF := make([]string, len(inputs))
 		for i, in := range inputs {
 			wantF[i] = filterKept(f, in)
